@@ -97,6 +97,46 @@ impl Session {
         String::from_utf8_lossy(&v).into_owned()
     }
 
+    /// run one query with a watchdog: after `tmo_ms` the interrupt flag is raised (hooks build only), which
+    /// ends a runaway query with the interrupt ball; the result is marked "tmo": true.
+    pub fn query_tmo(&mut self, q: &str, max: usize, tmo_ms: u64) -> Value {
+        #[cfg(feature = "hooks")]
+        {
+            use std::sync::atomic::{AtomicBool, Ordering};
+            use std::sync::Arc;
+            let done = Arc::new(AtomicBool::new(false));
+            let fired = Arc::new(AtomicBool::new(false));
+            let (d2, f2) = (done.clone(), fired.clone());
+            let h = std::thread::spawn(move || {
+                let t0 = std::time::Instant::now();
+                while !d2.load(Ordering::Relaxed) {
+                    if t0.elapsed().as_millis() as u64 >= tmo_ms {
+                        f2.store(true, Ordering::SeqCst);
+                        scryer_prolog::verif::raise_interrupt();
+                        // keep raising: nested dispatch loops may swallow one request
+                        std::thread::sleep(std::time::Duration::from_millis(50));
+                        continue;
+                    }
+                    std::thread::sleep(std::time::Duration::from_millis(5));
+                }
+            });
+            let mut r = self.query(q, max);
+            done.store(true, Ordering::SeqCst);
+            let _ = h.join();
+            scryer_prolog::verif::clear_interrupt();
+            if fired.load(Ordering::SeqCst) {
+                r["tmo"] = json!(true);
+                self.dirty = true;
+            }
+            return r;
+        }
+        #[cfg(not(feature = "hooks"))]
+        {
+            let _ = tmo_ms;
+            self.query(q, max)
+        }
+    }
+
     /// run one query, collecting at most `max` answers.
     pub fn query(&mut self, q: &str, max: usize) -> Value {
         let machine = &mut self.machine;
@@ -193,8 +233,11 @@ fn run_job(sess: &mut Option<Session>, job: &Value) -> Value {
             }
         } else if let Some(q) = st.get("q").and_then(|v| v.as_str()) {
             let max = st.get("max").and_then(|v| v.as_u64()).unwrap_or(64) as usize;
-            let r = s.query(q, max);
-            let panicked = r.get("panic").is_some();
+            let r = match st.get("tmo_ms").and_then(|v| v.as_u64()) {
+                Some(t) => s.query_tmo(q, max, t),
+                None => s.query(q, max),
+            };
+            let panicked = r.get("panic").is_some() || r.get("tmo").is_some();
             res.push(r);
             if panicked {
                 *sess = None;
